@@ -299,6 +299,7 @@ func (loop *EventLoop) Terminate() {
 		job := loop.jobs[i]
 		if !job.cancelled {
 			job.cancelled = true
+			loop.jobCount--
 			if job.cancel() {
 				loop.removeJob(job)
 				i--
